@@ -40,7 +40,7 @@ def values_part(ck, tier):
         except Exception as ex:
             ck.violation("GpRegressor raised", {**idn, "error": repr(ex)[:200]}, site="GpRegressor")
             continue
-        acqs = {"ei": ExpectedImprovement(), "ucb": UpperConfidenceBound(kappa=2.0), "ucb3": UpperConfidenceBound(kappa=3.0),
+        acqs = {"ei": ExpectedImprovement(), "ucb": UpperConfidenceBound(kappa=2.0), "ucb3": UpperConfidenceBound(kappa=3.0), "ucb0": UpperConfidenceBound(kappa=0.0),
                 "maxvar": MaxVariance()}
         for a in acqs.values():
             a.update_gp(gp)
@@ -56,11 +56,11 @@ def values_part(ck, tier):
             if not SL.value(p["ei"]) > 1e-300:
                 ck.count("acquisition_reference", "query_points_skipped_EI_below_double_range", 1)
                 continue
-            want = {"ei": SL.value(p["ei"]), "ucb": SL.value(p["ucb"]), "ucb3": SL.value(p["ucb3"]), "maxvar": G.fr(p["maxvar"])}
+            want = {"ei": SL.value(p["ei"]), "ucb": SL.value(p["ucb"]), "ucb3": SL.value(p["ucb3"]), "ucb0": SL.value(p["ucb0"]), "maxvar": G.fr(p["maxvar"])}
             wgrad = {"ei": np.array([SL.value(g) for g in p["gei"]]) / want["ei"],        # grad ln EI = grad EI / EI
-                     "ucb": np.array([SL.value(g) for g in p["gucb"]]), "ucb3": np.array([SL.value(g) for g in p["gucb3"]]), "maxvar": np.array([SL.value(g) for g in p["gvar"]])}
+                     "ucb": np.array([SL.value(g) for g in p["gucb"]]), "ucb3": np.array([SL.value(g) for g in p["gucb3"]]), "ucb0": np.array([SL.value(g) for g in p["gucb0"]]), "maxvar": np.array([SL.value(g) for g in p["gvar"]])}
             for name, acq in acqs.items():
-                cname = type(acq).__name__ + ("(kappa=3)" if name == "ucb3" else "")
+                cname = type(acq).__name__ + ("(kappa=3)" if name == "ucb3" else "(kappa=0)" if name == "ucb0" else "")
                 try:
                     with np.errstate(all="ignore"):
                         val = float(acq(x))
@@ -159,6 +159,18 @@ def optimiser_part(ck, tier):
                                                                          np.append(errs_before, 0.15))),
                                     "mu_max": int(round(float(opt.acquisition.mu_max))),
                                     "caller_unchanged": unchanged(((nx, kx), (ny, ky), (ne, ke)))})
+                # data given as an INTEGER array, then a fractional evaluation added as a plain number: recorded in quarter units
+                if hi % 4 == 1:
+                    yi = np.array([1, -2, 0])
+                    opi = GpOptimiser(x=x0, y=yi, y_err=e0, bounds=bounds, acquisition=acq)
+                    evs.append({"ev": "Init", "ys": [4, -8, 0], "n": int(len(opi.y)), "gp_n": int(opi.gp.y.size),
+                                "mu_max": int(round(4 * float(opi.acquisition.mu_max))), "caller_unchanged": bool(np.array_equal(yi, [1, -2, 0]) and yi.dtype.kind == "i")})
+                    eb = np.array(opi.y_err, dtype=float).copy()
+                    opi.add_evaluation(np.array([0.25] * dim), 3.75, new_y_err=0.15)
+                    evs.append({"ev": "Add", "y": 15, "n": int(len(opi.y)), "gp_n": int(opi.gp.y.size), "last_y": int(round(4 * float(opi.y[-1]))),
+                                "last_x_ok": bool(len(opi.x) == len(opi.y) and opi.gp.x.shape[0] == len(opi.y) and round(4 * float(opi.gp.y[-1])) == 15),
+                                "errs_aligned": bool(np.array_equal(np.asarray(opi.y_err, dtype=float), np.append(eb, 0.15))),
+                                "mu_max": int(round(4 * float(opi.acquisition.mu_max))), "caller_unchanged": bool(np.array_equal(yi, [1, -2, 0]))})
                 # optimisers built with the DEFAULT acquisition are independent objects: construct and use another one, then look again
                 if hi % 4 == 0:
                     # (with the default acquisition, or -- every other time -- with ONE acquisition object given to both optimisers)
